@@ -411,3 +411,600 @@ Proof.
       destruct (pexec orc (names_tab k (map fst ds)) l m1 a) as [[m' fin']|e3|f3|]; [| | |destruct H3];
         destruct H3 as [s' [E O]]; exists s'; (split; [exact E|]); rewrite O; exact O1.
 Qed.
+
+(** * Compiler correctness for F1, given that the static pass accepts *)
+
+Lemma Rel_init : Rel [] sem_init mst0.
+Proof.
+  constructor; cbn [sem_init mst0 st_heap st_cells st_next m_heap m_gl map length]; auto.
+  - constructor.
+  - intros [|i] y c H; discriminate H.
+  - intros c [].
+  - intros c _. apply PM.gempty.
+Qed.
+
+Theorem compile_correct_F1_accepted : forall orc p, in_F1 p = true -> ends_expr p = true ->
+  forall bc, compile p = Ok bc ->
+  forall fuel r, sem_program orc fuel p = r -> r <> SemFuel -> (forall k, r <> SemRejected k) ->
+  exists budget, obs_eq (run_program orc bc budget) r.
+Proof.
+  intros orc p HF HE bc Hc fuel r Hr Hnf Hnr. unfold sem_program in Hr.
+  destruct (static_check fuel p) as [k|]; [exfalso; apply (Hnr k); symmetry; exact Hr|].
+  pose proof (compile_run_F1 orc p bc HF Hc) as Hrun.
+  pose proof (sem_pexec orc p HF fuel O [] sem_init mst0 VNull VNull Rel_init HE (fun _ => eq_refl)) as Hsem.
+  change (mkD [rev []] None) with (mkD [[]] None) in Hsem.
+  change (names_tab 0 (map fst [])) with symtab_new in Hsem.
+  destruct Hsem as [E|Hsem]; [rewrite E in Hr; exfalso; apply Hnf; symmetry; exact Hr|].
+  destruct (pexec orc symtab_new p mst0 VNull) as [[m' fin']|e|f|]; [| | |destruct Hsem];
+    destruct Hsem as [sst' [E O]]; rewrite E in Hr; subst r; destruct Hrun as [budget [R1 R2]];
+    exists budget; cbn [obs_eq]; rewrite O; cbn [sem_init st_out]; auto.
+Qed.
+
+(** * The static pass and the compiler's name resolution *)
+
+Lemma ck_int : forall f c z, check_expr (S f) c (EInt z) = None.
+Proof. reflexivity. Qed.
+Lemma ck_bool : forall f c b, check_expr (S f) c (EBool b) = None.
+Proof. reflexivity. Qed.
+Lemma ck_ident : forall f c x,
+  check_expr (S f) c (EIdent x) = if s_visible c x then None else Some EReferenceError.
+Proof. reflexivity. Qed.
+Lemma ck_prefix : forall f c o r, check_expr (S f) c (EPrefix o r) = check_expr f c r.
+Proof. reflexivity. Qed.
+Lemma ck_infix : forall f c l o r,
+  check_expr (S f) c (EInfix l o r) = first_err (check_expr f c l) (fun _ => check_expr f c r).
+Proof. reflexivity. Qed.
+Lemma ck_assign_ident : forall f c x r,
+  check_expr (S f) c (EAssign (EIdent x) r) =
+  if s_visible c x then check_expr f c r else Some EReferenceError.
+Proof. reflexivity. Qed.
+Lemma cb_nil : forall f c, check_block (S f) c [] = None.
+Proof. reflexivity. Qed.
+Lemma cb_let : forall f c x e r,
+  check_block (S f) c (SLet x e :: r) =
+  first_err (check_expr f (s_declare c x) e) (fun _ => check_block f (s_declare c x) r).
+Proof. reflexivity. Qed.
+Lemma cb_expr : forall f c e r, in_F1e e = true ->
+  check_block (S f) c (SExpr e :: r) = first_err (check_expr f c e) (fun _ => check_block f c r).
+Proof. intros f c e r H. destruct e; try discriminate H; reflexivity. Qed.
+
+Definition top_sctx (names : list text) : sctx := mkS [rev names] None 0.
+
+Lemma visible_resolve : forall names x,
+  s_visible (top_sctx names) x = match rposition x names with Some _ => true | None => false end.
+Proof.
+  intros names x. unfold s_visible, top_sctx, in_senv. cbn [s_local s_global existsb].
+  rewrite !orb_false_r. induction names as [|y l IH] using rev_ind.
+  - reflexivity.
+  - rewrite rev_unit, rposition_snoc. cbn [in_scope]. rewrite (text_eqb_sym x y).
+    destruct (text_eqb y x); [reflexivity|]. exact IH.
+Qed.
+
+Lemma declare_top : forall names x, s_declare (top_sctx names) x = top_sctx (names ++ [x]).
+Proof. intros. unfold s_declare, top_sctx. cbn [s_local s_global s_loops]. rewrite rev_unit. reflexivity. Qed.
+
+Definition static_agree {A} (r : outcome A) (chk : option errkind) : Prop :=
+  match r with
+  | Ok _ => chk = None \/ chk = Some ESyntaxError
+  | Err EReferenceError => chk = Some EReferenceError \/ chk = Some ESyntaxError
+  | _ => True
+  end.
+
+Lemma static_agree_fuel0 : forall A (r : outcome A), static_agree r (Some ESyntaxError).
+Proof. intros A [a|[]|f|]; cbn [static_agree]; auto. Qed.
+
+Lemma compile_expr_symbols : forall e st st', in_F1e e = true -> gtab (c_symbols st) ->
+  compile_expression e st = Ok st' -> c_symbols st' = c_symbols st.
+Proof.
+  intros e st st' HF Hg H.
+  exact (proj1 (compile_expr_sim (mkOracle (fun _ => []) (fun _ => None) (fun x _ => x)) e HF st st' (or_intror Hg) H)).
+Qed.
+
+(* sequencing two compilation steps against first_err *)
+Lemma static_agree_seq : forall A B (r1 : outcome A) (k : A -> outcome B) c1 c2,
+  static_agree r1 c1 -> (forall a, r1 = Ok a -> static_agree (k a) (c2 tt)) ->
+  static_agree (bind r1 k) (first_err c1 c2).
+Proof.
+  intros A B r1 k c1 c2 H1 H2. destruct r1 as [a|e|f|]; cbn [bind].
+  - cbn [static_agree] in H1. destruct H1 as [-> | ->]; cbn [first_err].
+    + apply H2; reflexivity.
+    + apply static_agree_fuel0.
+  - destruct e; cbn [static_agree] in *; try exact I.
+    destruct H1 as [-> | ->]; cbn [first_err]; auto.
+  - exact I.
+  - exact I.
+Qed.
+
+Lemma static_generic_infix : forall l op r f k names,
+  (forall st, c_symbols st = names_tab k names ->
+     static_agree (compile_expression l st) (check_expr f (top_sctx names) l)) ->
+  (forall st, c_symbols st = names_tab k names ->
+     static_agree (compile_expression r st) (check_expr f (top_sctx names) r)) ->
+  in_F1e l = true -> is_binop op = true ->
+  forall st, c_symbols st = names_tab k names ->
+  static_agree (generic_infix l op r st)
+               (first_err (check_expr f (top_sctx names) l) (fun _ => check_expr f (top_sctx names) r)).
+Proof.
+  intros l op r f k names IHl IHr Hl Hop st Hs. unfold generic_infix.
+  apply static_agree_seq; [apply IHl; exact Hs|].
+  intros st1 H1.
+  assert (c_symbols st1 = names_tab k names) as Hs1.
+  { rewrite <- Hs. apply (compile_expr_symbols l st st1 Hl); [rewrite Hs; apply gtab_names|exact H1]. }
+  specialize (IHr st1 Hs1).
+  destruct (compile_expression r st1) as [st2|e|x|]; cbn [bind]; try exact IHr.
+  - destruct (assoc operator_eqb op compile_operator_table); [exact IHr|exact I].
+Qed.
+
+Lemma static_expr : forall e, in_F1e e = true -> forall fuel k names st,
+  c_symbols st = names_tab k names ->
+  static_agree (compile_expression e st) (check_expr fuel (top_sctx names) e).
+Proof.
+  intros e. induction e as [l IHl op r IHr|op r IHr|z| |b| |x| | |l IHl r IHr| | | |];
+    intros HF fuel k names st Hs; try discriminate HF; cbn [in_F1e] in HF;
+    (destruct fuel as [|f]; [apply static_agree_fuel0|]).
+  - apply andb_prop in HF. destruct HF as [HF Hr]. apply andb_prop in HF. destruct HF as [Hop Hl].
+    rewrite ce_infix, ck_infix.
+    assert (forall st0, c_symbols st0 = names_tab k names ->
+              static_agree (generic_infix l op r st0)
+                (first_err (check_expr f (top_sctx names) l) (fun _ => check_expr f (top_sctx names) r))) as Hgen.
+    { apply (static_generic_infix l op r f k names);
+        [intros st0 H0; apply (IHl Hl f k names st0 H0)|intros st0 H0; apply (IHr Hr f k names st0 H0)
+        |exact Hl|exact Hop]. }
+    destruct (fused_candidate l r op) as [[[name v] op']|]; [|apply Hgen; exact Hs].
+    destruct (compile_const_var_infix name v op' st) as [st1 done] eqn:Ec.
+    assert (gtab (c_symbols st)) as Hg by (rewrite Hs; apply gtab_names).
+    destruct (const_var_infix_global _ _ _ _ _ _ Hg Ec) as [-> [Hs1 _]].
+    apply Hgen. rewrite Hs1. exact Hs.
+  - apply andb_prop in HF. destruct HF as [Hop Hr].
+    rewrite ce_prefix, ck_prefix. specialize (IHr Hr f k names st Hs).
+    destruct (compile_expression r st) as [st1|e|x|]; cbn [bind]; try exact IHr.
+    destruct op; try discriminate Hop; exact IHr.
+  - rewrite ce_int, ck_int. unfold emit_const.
+    destruct (add_constant (KInt z) st) as [st0 r0] eqn:Ea. unfold add_constant in Ea.
+    destruct (const_position (KInt z) (c_constants st)); inversion Ea; subst;
+      unfold operand; (match goal with |- context [if ?c then _ else _] => destruct c end);
+      cbn [bind static_agree]; auto.
+  - rewrite ce_bool, ck_bool. cbn [static_agree]. auto.
+  - rewrite ce_ident, ck_ident, visible_resolve, Hs, resolve_names.
+    destruct (rposition x names) as [i|]; cbn [option_map].
+    + unfold scoped, emit_sym. cbn [s_scope s_index].
+      destruct (operand 16 (Z.of_nat i)) as [idx|e|y|] eqn:Eo; cbn [bind static_agree]; auto.
+      unfold operand in Eo. destruct (Z.of_nat i <? 2 ^ 16); inversion Eo. exact I.
+    + cbn [static_agree]. auto.
+  - destruct l as [| | | | | |x| | | | | | |]; try discriminate HF.
+    rewrite ce_assign_ident, ck_assign_ident, visible_resolve, Hs, resolve_names.
+    destruct (rposition x names) as [i|]; cbn [option_map]; [|cbn [static_agree]; auto].
+    specialize (IHr HF f k names st Hs).
+    destruct (compile_expression r st) as [st1|e|y|]; cbn [bind]; try exact IHr.
+    unfold scoped, emit_sym. cbn [s_scope s_index].
+    destruct (operand 16 (Z.of_nat i)) as [idx|e|y|] eqn:Eo; cbn [bind static_agree].
+    + exact IHr.
+    + unfold operand in Eo. destruct (Z.of_nat i <? 2 ^ 16); inversion Eo. exact I.
+    + exact I.
+    + exact I.
+Qed.
+
+Lemma static_stmts : forall l, in_F1 l = true -> forall fuel k names st,
+  c_symbols st = names_tab k names ->
+  static_agree (compile_statements l st) (check_block fuel (top_sctx names) l).
+Proof.
+  intros l. induction l as [|s0 l IH]; intros HF fuel k names st Hs;
+    (destruct fuel as [|f]; [apply static_agree_fuel0|]).
+  - rewrite cb_nil. cbn [compile_statements static_agree]. auto.
+  - cbn [in_F1 forallb] in HF. apply andb_prop in HF. destruct HF as [HF0 HFl].
+    cbn [compile_statements].
+    assert (gtab (c_symbols st)) as Hg by (rewrite Hs; apply gtab_names).
+    destruct s0 as [x e|e|e| | |]; try discriminate HF0; cbn [in_F1s] in HF0.
+    + rewrite cb_let, declare_top. apply static_agree_seq.
+      * rewrite cs_let, Hs, define_names.
+        assert (c_symbols (set_symbols st (names_tab (S k) (names ++ [x]))) = names_tab (S k) (names ++ [x])) as Hs0
+          by reflexivity.
+        pose proof (static_expr e HF0 f (S k) (names ++ [x]) _ Hs0) as He.
+        destruct (compile_expression e (set_symbols st (names_tab (S k) (names ++ [x])))) as [st1|e1|y|];
+          cbn [bind]; try exact He.
+        unfold scoped, emit_sym. cbn [s_scope s_index].
+        destruct (operand 16 (Z.of_nat (length names))) as [idx|e1|y|] eqn:Eo; cbn [bind static_agree]; auto.
+        unfold operand in Eo. destruct (Z.of_nat (length names) <? 2 ^ 16); inversion Eo. exact I.
+      * intros st2 H2. apply (IH HFl f (S k) (names ++ [x]) st2).
+        rewrite cs_let, Hs, define_names in H2. apply bind_ok in H2. destruct H2 as [st1 [H1 H2]].
+        unfold scoped in H2. cbn [s_scope] in H2.
+        destruct (emit_sym_spec _ _ _ _ H2) as [Hs2 _]. rewrite Hs2.
+        rewrite (compile_expr_symbols e (set_symbols st (names_tab (S k) (names ++ [x]))) st1 HF0
+                   (gtab_names (S k) (names ++ [x])) H1). reflexivity.
+    + rewrite (cb_expr f (top_sctx names) e l HF0). apply static_agree_seq.
+      * rewrite cs_expr. pose proof (static_expr e HF0 f k names st Hs) as He.
+        destruct (compile_expression e st) as [st1|e1|y|]; cbn [bind]; exact He.
+      * intros st2 H2. apply (IH HFl f k names st2).
+        rewrite cs_expr in H2. apply bind_ok in H2. destruct H2 as [st1 [H1 H2]].
+        inversion H2; subst st2. cbn [emit_opcode c_symbols].
+        rewrite (compile_expr_symbols e st st1 HF0 Hg H1). exact Hs.
+Qed.
+
+(* with enough fuel the static pass never reports ESyntaxError on F1 *)
+Lemma check_expr_fuel : forall e, in_F1e e = true -> forall fuel c, (size_expr e <= fuel)%nat ->
+  check_expr fuel c e <> Some ESyntaxError.
+Proof.
+  intros e. induction e as [l IHl op r IHr|op r IHr|z| |b| |x| | |l IHl r IHr| | | |];
+    intros HF fuel c Hsz; try discriminate HF; cbn [in_F1e] in HF; cbn [size_expr] in Hsz;
+    (destruct fuel as [|f]; [lia|]).
+  - apply andb_prop in HF. destruct HF as [HF Hr]. apply andb_prop in HF. destruct HF as [Hop Hl].
+    rewrite ck_infix. specialize (IHl Hl f c ltac:(lia)). specialize (IHr Hr f c ltac:(lia)).
+    destruct (check_expr f c l) as [e1|]; cbn [first_err]; assumption.
+  - apply andb_prop in HF. destruct HF as [Hop Hr]. rewrite ck_prefix. apply IHr; [exact Hr|lia].
+  - rewrite ck_int. discriminate.
+  - rewrite ck_bool. discriminate.
+  - rewrite ck_ident. destruct (s_visible c x); discriminate.
+  - destruct l as [| | | | | |x| | | | | | |]; try discriminate HF. rewrite ck_assign_ident.
+    destruct (s_visible c x); [|discriminate]. apply IHr; [exact HF|lia].
+Qed.
+
+Lemma check_block_fuel : forall l, in_F1 l = true -> forall fuel c, (size_block l <= fuel)%nat ->
+  check_block fuel c l <> Some ESyntaxError.
+Proof.
+  intros l. induction l as [|s0 l IH]; intros HF fuel c Hsz; cbn [size_block] in Hsz;
+    (destruct fuel as [|f]; [lia|]).
+  - rewrite cb_nil. discriminate.
+  - cbn [in_F1 forallb] in HF. apply andb_prop in HF. destruct HF as [HF0 HFl].
+    destruct s0 as [x e|e|e| | |]; try discriminate HF0; cbn [in_F1s] in HF0; cbn [size_stmt] in Hsz.
+    + rewrite cb_let. pose proof (check_expr_fuel e HF0 f (s_declare c x) ltac:(lia)) as He.
+      specialize (IH HFl f (s_declare c x) ltac:(lia)).
+      destruct (check_expr f (s_declare c x) e) as [e1|]; cbn [first_err]; assumption.
+    + rewrite (cb_expr f c e l HF0). pose proof (check_expr_fuel e HF0 f c ltac:(lia)) as He.
+      specialize (IH HFl f c ltac:(lia)).
+      destruct (check_expr f c e) as [e1|]; cbn [first_err]; assumption.
+Qed.
+
+(** * The theorems *)
+
+(* what the compiler accepts / rejects for an undeclared name, the static pass accepts / rejects *)
+Theorem static_check_agrees : forall p, in_F1 p = true -> forall fuel,
+  match compile p with
+  | Ok _ => static_check fuel p = None \/ static_check fuel p = Some ESyntaxError
+  | Err EReferenceError =>
+      static_check fuel p = Some EReferenceError \/ static_check fuel p = Some ESyntaxError
+  | _ => True
+  end.
+Proof.
+  intros p HF fuel. pose proof (static_stmts p HF fuel O [] compiler_new eq_refl) as H.
+  unfold compile, compile_ast. unfold static_check. change (mkS [[]] None 0) with (top_sctx []).
+  destruct (compile_statements p compiler_new) as [st1|e|f|]; cbn [snd]; exact H.
+Qed.
+
+(* ... where Some ESyntaxError only means that the static pass ran out of fuel: *)
+Theorem static_check_fuel : forall p, in_F1 p = true -> forall fuel, (size_block p <= fuel)%nat ->
+  static_check fuel p <> Some ESyntaxError.
+Proof. intros p HF fuel H. apply check_block_fuel; assumption. Qed.
+
+Theorem compile_reject_F1 : forall orc p, in_F1 p = true -> compile p = Err EReferenceError ->
+  forall fuel, (size_block p <= fuel)%nat -> sem_program orc fuel p = SemRejected EReferenceError.
+Proof.
+  intros orc p HF Hc fuel Hsz. pose proof (static_check_agrees p HF fuel) as H. rewrite Hc in H.
+  unfold sem_program. destruct H as [-> | H]; [reflexivity|].
+  exfalso. exact (static_check_fuel p HF fuel Hsz H).
+Qed.
+
+Theorem static_reject_F1 : forall p, in_F1 p = true -> forall fuel,
+  static_check fuel p = Some EReferenceError -> forall bc, compile p <> Ok bc.
+Proof.
+  intros p HF fuel Hs bc Hc. pose proof (static_check_agrees p HF fuel) as H. rewrite Hc, Hs in H.
+  destruct H as [H|H]; discriminate H.
+Qed.
+
+(* Compiler correctness for F1.  `r <> SemRejected ESyntaxError` excludes exactly the case that the
+   fuel given to the static pass was too small (Sem.static_check reports fuel exhaustion as
+   Some ESyntaxError; on F1 nothing else produces that answer: static_check_fuel). *)
+Theorem compile_correct_F1 : forall orc p, in_F1 p = true -> ends_expr p = true ->
+  forall bc, compile p = Ok bc ->
+  forall fuel r, sem_program orc fuel p = r -> r <> SemFuel -> r <> SemRejected ESyntaxError ->
+  exists budget, obs_eq (run_program orc bc budget) r.
+Proof.
+  intros orc p HF HE bc Hc fuel r Hr Hnf Hns.
+  apply (compile_correct_F1_accepted orc p HF HE bc Hc fuel r Hr Hnf).
+  intros k Hk. pose proof (static_check_agrees p HF fuel) as H. rewrite Hc in H.
+  unfold sem_program in Hr. destruct H as [H|H]; rewrite H in Hr.
+  - rewrite Hk in Hr. destruct (exec_block orc fuel (mkD [[]] None) p VNull sem_init); discriminate Hr.
+  - apply Hns. symmetry. exact Hr.
+Qed.
+
+(* the same with explicit sufficient fuel for the static pass *)
+Corollary compile_correct_F1_fuel : forall orc p, in_F1 p = true -> ends_expr p = true ->
+  forall bc, compile p = Ok bc ->
+  forall fuel, (size_block p <= fuel)%nat -> sem_program orc fuel p <> SemFuel ->
+  exists budget, obs_eq (run_program orc bc budget) (sem_program orc fuel p).
+Proof.
+  intros orc p HF HE bc Hc fuel Hsz Hnf.
+  apply (compile_correct_F1 orc p HF HE bc Hc fuel _ eq_refl Hnf).
+  intros H. unfold sem_program in H.
+  destruct (static_check fuel p) as [k|] eqn:Es.
+  - inversion H; subst k. exact (static_check_fuel p HF fuel Hsz Es).
+  - destruct (exec_block orc fuel (mkD [[]] None) p VNull sem_init); discriminate H.
+Qed.
+
+(** * Statement (1): closed scalar expressions (F1a), directly against Sem.eval_expr *)
+
+Section F1a.
+  Variable orc : oracle.
+
+  (* the denotation of an F1a expression is a pure function of the expression *)
+  Fixpoint pure_eval (e : expr) : outcome val :=
+    match e with
+    | EInt z => Ok (VInt z)
+    | EBool b => Ok (VBool b)
+    | EPrefix op r =>
+        do v <- pure_eval r;
+        match op with
+        | OpNegate | OpSubtract => do x <- negate empty_heap v; Ok (fst x)
+        | OpNot => lognot v
+        | _ => Err ETypeError
+        end
+    | EInfix l op r =>
+        do a <- pure_eval l;
+        do b <- pure_eval r;
+        match Sem.method_of op with
+        | Some m => do x <- binop orc m empty_heap a b; Ok (fst x)
+        | None => Err ETypeError
+        end
+    | _ => Err ETypeError
+    end.
+
+  Lemma in_F1a_F1e : forall e, in_F1a e = true -> in_F1e e = true /\ no_ident e = true.
+  Proof.
+    induction e as [l IHl op r IHr|op r IHr|z| |b| |x| | |l IHl r IHr| | | |]; intros H;
+      try discriminate H; cbn [in_F1a in_F1e no_ident] in *.
+    - apply andb_prop in H. destruct H as [H Hr]. apply andb_prop in H. destruct H as [Hop Hl].
+      destruct (IHl Hl) as [A1 A2]. destruct (IHr Hr) as [B1 B2]. rewrite Hop, A1, A2, B1, B2. auto.
+    - apply andb_prop in H. destruct H as [Hop Hr]. destruct (IHr Hr) as [B1 B2]. rewrite Hop, B1, B2. auto.
+    - auto.
+    - auto.
+  Qed.
+
+  Lemma sstate_eta : forall s, mkSt (st_heap s) (st_cells s) (st_next s) (st_funs s) (st_out s) = s.
+  Proof. destruct s; reflexivity. Qed.
+
+  Definition pure_spec (e : expr) : Prop :=
+    match pure_eval e with
+    | Ok v => scalar v = true /\ (forall rs m, peval orc rs e m = Ok (v, m)) /\
+              (forall fuel c sst, eval_expr orc fuel c e sst = RFuel \/ eval_expr orc fuel c e sst = ROk v sst)
+    | Err k => (forall rs m, peval orc rs e m = Err k) /\
+               (forall fuel c sst, eval_expr orc fuel c e sst = RFuel \/ eval_expr orc fuel c e sst = RErr k sst)
+    | _ => False
+    end.
+
+  (* a value-level operation that, on these operands, is `lift_sres h sr` for every heap h *)
+  Lemma lifted_cases : forall (F : heap -> outcome (val * heap)) sr, sres_ok sr ->
+    (forall h, F h = lift_sres h sr) ->
+    (exists v, scalar v = true /\ forall h, F h = Ok (v, h)) \/ (forall h, F h = Err ETypeError).
+  Proof.
+    intros F sr Hok HF. destruct sr as [z|b|x|]; cbn [sres_ok] in Hok; try contradiction.
+    - left. exists (VInt z). split; [exact Hok|]. intros h. rewrite HF. reflexivity.
+    - left. exists (VBool b). split; [reflexivity|]. intros h. rewrite HF. reflexivity.
+    - right. intros h. rewrite HF. reflexivity.
+  Qed.
+
+  Lemma pure_eval_spec : forall e, in_F1a e = true -> pure_spec e.
+  Proof.
+    induction e as [l IHl op r IHr|op r IHr|z| |b| |x| | |l IHl r IHr| | | |]; intros H;
+      try discriminate H; cbn [in_F1a] in H; unfold pure_spec; cbn [pure_eval].
+    - (* EInfix *)
+      apply andb_prop in H. destruct H as [H Hr]. apply andb_prop in H. destruct H as [Hop Hl].
+      specialize (IHl Hl). specialize (IHr Hr). unfold pure_spec in IHl, IHr.
+      destruct (pure_eval l) as [a|ka| |]; try contradiction; cbn [bind].
+      + destruct IHl as [Sa [Pl Sl]].
+        destruct (pure_eval r) as [b|kb| |]; try contradiction; cbn [bind].
+        * destruct IHr as [Sb [Pr Sr]].
+          destruct (Sem.method_of op) as [mth|] eqn:Em.
+          -- destruct (binop_scalar orc op mth a b Em Sa Sb) as [sr [Hok Hbin]].
+             destruct (lifted_cases (fun h => binop orc mth h a b) sr Hok Hbin) as [[v [Sv Hv]]|He].
+             ++ rewrite Hv. cbn [bind fst]. split; [exact Sv|]. split.
+                ** intros rs m. cbn [peval]. rewrite Pl. cbn [bind]. rewrite Pr. cbn [bind]. rewrite Em, Hv.
+                   cbn [bind fst]. rewrite with_new_m_same. reflexivity.
+                ** intros [|f] c sst; [left; reflexivity|]. rewrite ee_infix.
+                   destruct (Sl f c sst) as [E|E]; rewrite E; cbn [rbind]; [left; reflexivity|].
+                   destruct (Sr f c sst) as [E2|E2]; rewrite E2; cbn [rbind]; [left; reflexivity|].
+                   rewrite Em, Hv. cbn [lift_heap]. rewrite sstate_eta. right; reflexivity.
+             ++ rewrite He. cbn [bind]. split.
+                ** intros rs m. cbn [peval]. rewrite Pl. cbn [bind]. rewrite Pr. cbn [bind]. rewrite Em, He.
+                   reflexivity.
+                ** intros [|f] c sst; [left; reflexivity|]. rewrite ee_infix.
+                   destruct (Sl f c sst) as [E|E]; rewrite E; cbn [rbind]; [left; reflexivity|].
+                   destruct (Sr f c sst) as [E2|E2]; rewrite E2; cbn [rbind]; [left; reflexivity|].
+                   rewrite Em, He. right; reflexivity.
+          -- split.
+             ++ intros rs m. cbn [peval]. rewrite Pl. cbn [bind]. rewrite Pr. cbn [bind]. rewrite Em. reflexivity.
+             ++ intros [|f] c sst; [left; reflexivity|]. rewrite ee_infix.
+                destruct (Sl f c sst) as [E|E]; rewrite E; cbn [rbind]; [left; reflexivity|].
+                destruct (Sr f c sst) as [E2|E2]; rewrite E2; cbn [rbind]; [left; reflexivity|].
+                rewrite Em. right; reflexivity.
+        * destruct IHr as [Pr Sr]. split.
+          -- intros rs m. cbn [peval]. rewrite Pl. cbn [bind]. rewrite Pr. reflexivity.
+          -- intros [|f] c sst; [left; reflexivity|]. rewrite ee_infix.
+             destruct (Sl f c sst) as [E|E]; rewrite E; cbn [rbind]; [left; reflexivity|].
+             destruct (Sr f c sst) as [E2|E2]; rewrite E2; cbn [rbind]; [left; reflexivity|right; reflexivity].
+      + destruct IHl as [Pl Sl]. split.
+        * intros rs m. cbn [peval]. rewrite Pl. reflexivity.
+        * intros [|f] c sst; [left; reflexivity|]. rewrite ee_infix.
+          destruct (Sl f c sst) as [E|E]; rewrite E; cbn [rbind]; [left; reflexivity|right; reflexivity].
+    - (* EPrefix *)
+      apply andb_prop in H. destruct H as [Hop Hr]. specialize (IHr Hr). unfold pure_spec in IHr.
+      destruct (pure_eval r) as [a|ka| |]; try contradiction; cbn [bind].
+      + destruct IHr as [Sa [Pr Sr]].
+        assert (match (do x <- negate empty_heap a; Ok (fst x)) with
+                | Ok v => scalar v = true /\
+                    (forall m : mst, (do x <- negate (m_heap m) a; Ok (fst x, with_new_m m x)) = Ok (v, m)) /\
+                    (forall sst, lift_heap sst (negate (st_heap sst) a) = ROk v sst)
+                | Err k =>
+                    (forall m : mst, (do x <- negate (m_heap m) a; Ok (fst x, with_new_m m x)) = Err k) /\
+                    (forall sst, lift_heap sst (negate (st_heap sst) a) = RErr k sst)
+                | _ => False
+                end) as Hneg.
+        { destruct (negate_scalar a Sa) as [sr [Hok Hn]].
+          destruct (lifted_cases (fun h => negate h a) sr Hok Hn) as [[v [Sv Hv]]|He].
+          - rewrite Hv. cbn [bind fst]. split; [exact Sv|]. split.
+            + intros m. rewrite Hv. cbn [bind fst]. rewrite with_new_m_same. reflexivity.
+            + intros sst. rewrite Hv. cbn [lift_heap]. rewrite sstate_eta. reflexivity.
+          - rewrite He. cbn [bind]. split.
+            + intros m. rewrite He. reflexivity.
+            + intros sst. rewrite He. reflexivity. }
+        destruct op; try discriminate Hop.
+        * (* OpSubtract *)
+          destruct (do x <- negate empty_heap a; Ok (fst x)) as [v|kv| |]; try contradiction.
+          -- destruct Hneg as [Sv [Pn Sn]]. split; [exact Sv|]. split.
+             ++ intros rs m. cbn [peval]. rewrite Pr. cbn [bind]. apply Pn.
+             ++ intros [|f] c sst; [left; reflexivity|]. rewrite ee_prefix.
+                destruct (Sr f c sst) as [E|E]; rewrite E; cbn [rbind]; [left; reflexivity|].
+                rewrite Sn. right; reflexivity.
+          -- destruct Hneg as [Pn Sn]. split.
+             ++ intros rs m. cbn [peval]. rewrite Pr. cbn [bind]. apply Pn.
+             ++ intros [|f] c sst; [left; reflexivity|]. rewrite ee_prefix.
+                destruct (Sr f c sst) as [E|E]; rewrite E; cbn [rbind]; [left; reflexivity|].
+                rewrite Sn. right; reflexivity.
+        * (* OpNot *)
+          destruct a as [|x|x| | | |]; try discriminate Sa; cbn [lognot].
+          -- split.
+             ++ intros rs m. cbn [peval]. rewrite Pr. reflexivity.
+             ++ intros [|f] c sst; [left; reflexivity|]. rewrite ee_prefix.
+                destruct (Sr f c sst) as [E|E]; rewrite E; cbn [rbind]; [left; reflexivity|right; reflexivity].
+          -- split; [reflexivity|]. split.
+             ++ intros rs m. cbn [peval]. rewrite Pr. reflexivity.
+             ++ intros [|f] c sst; [left; reflexivity|]. rewrite ee_prefix.
+                destruct (Sr f c sst) as [E|E]; rewrite E; cbn [rbind]; [left; reflexivity|right; reflexivity].
+          -- split.
+             ++ intros rs m. cbn [peval]. rewrite Pr. reflexivity.
+             ++ intros [|f] c sst; [left; reflexivity|]. rewrite ee_prefix.
+                destruct (Sr f c sst) as [E|E]; rewrite E; cbn [rbind]; [left; reflexivity|right; reflexivity].
+        * (* OpNegate *)
+          destruct (do x <- negate empty_heap a; Ok (fst x)) as [v|kv| |]; try contradiction.
+          -- destruct Hneg as [Sv [Pn Sn]]. split; [exact Sv|]. split.
+             ++ intros rs m. cbn [peval]. rewrite Pr. cbn [bind]. apply Pn.
+             ++ intros [|f] c sst; [left; reflexivity|]. rewrite ee_prefix.
+                destruct (Sr f c sst) as [E|E]; rewrite E; cbn [rbind]; [left; reflexivity|].
+                rewrite Sn. right; reflexivity.
+          -- destruct Hneg as [Pn Sn]. split.
+             ++ intros rs m. cbn [peval]. rewrite Pr. cbn [bind]. apply Pn.
+             ++ intros [|f] c sst; [left; reflexivity|]. rewrite ee_prefix.
+                destruct (Sr f c sst) as [E|E]; rewrite E; cbn [rbind]; [left; reflexivity|].
+                rewrite Sn. right; reflexivity.
+      + destruct IHr as [Pr Sr]. split.
+        * intros rs m. cbn [peval]. rewrite Pr. reflexivity.
+        * intros [|f] c sst; [left; reflexivity|]. rewrite ee_prefix.
+          destruct (Sr f c sst) as [E|E]; rewrite E; cbn [rbind]; [left; reflexivity|right; reflexivity].
+    - (* EInt *)
+      split.
+      + cbn [scalar]. unfold lit_ok in H. unfold in_int_range.
+        apply andb_prop in H. destruct H as [H0 H1]. apply Z.leb_le in H0. rewrite H1.
+        pose proof MIN_INT_val. apply andb_true_intro. split; [apply Z.leb_le; lia|reflexivity].
+      + split; [reflexivity|]. intros [|f] c sst; [left|right]; reflexivity.
+    - (* EBool *)
+      split; [reflexivity|]. split; [reflexivity|]. intros [|f] c sst; [left|right]; reflexivity.
+  Qed.
+
+  (* Statement (1).  For every compiler state (any code buffer, pool, symbol table) for which
+     compilation succeeds, the emitted code `ce`, placed at its offset in ANY program whose pool
+     agrees with the compiler's, started in ANY machine state at that offset: whenever Sem gives
+     the expression a value v, the machine reaches, in finitely many steps, the state that differs
+     from the start state only by v pushed and ip at the end of `ce`; whenever Sem gives an error,
+     the machine stops with that error and has printed nothing more.  Sem's own state is unchanged. *)
+  Theorem compile_expr_correct_F1a : forall e, in_F1a e = true ->
+    forall st st', compile_expression e st = Ok st' ->
+    exists ce kx, c_code st' = c_code st ++ ce /\ c_constants st' = c_constants st ++ kx /\
+    forall prog, code_at prog (code_len st) ce -> consts_ok prog (c_constants st') ->
+    forall s, v_ip s = code_len st ->
+    forall fuel c sst,
+    match eval_expr orc fuel c e sst with
+    | ROk v sst' =>
+        sst' = sst /\
+        reaches orc prog s (mkVM (v :: v_stack s) (v_slen s + 1) (v_globals s) (v_frames s) (code_len st')
+                                 (v_bp s) (v_final s) (v_heap s) (v_gc s) (v_out s))
+    | RErr k sst' => sst' = sst /\ stops orc prog s (Err k) (v_out s)
+    | RFuel => True
+    | RSig _ _ | RFault _ _ => False
+    end.
+  Proof.
+    intros e HF st st' Hc. destruct (in_F1a_F1e e HF) as [HFe Hni].
+    destruct (compile_expr_sim orc e HFe st st' (or_introl Hni) Hc) as [_ [ce [kx [Hce [Hkx [_ Hsim]]]]]].
+    exists ce, kx. split; [exact Hce|]. split; [exact Hkx|].
+    intros prog Hcode Hk s Hip fuel c sst. specialize (Hsim prog Hcode Hk s Hip).
+    pose proof (pure_eval_spec e HF) as Hp. unfold pure_spec in Hp.
+    destruct (pure_eval e) as [v|k| |]; try contradiction.
+    - destruct Hp as [_ [Pe Se]]. rewrite Pe in Hsim. cbn [sim_expr] in Hsim.
+      destruct (Se fuel c sst) as [E|E]; rewrite E; [exact I|]. split; [reflexivity|exact Hsim].
+    - destruct Hp as [Pe Se]. rewrite Pe in Hsim. cbn [sim_expr retag] in Hsim.
+      destruct (Se fuel c sst) as [E|E]; rewrite E; [exact I|]. split; [reflexivity|exact Hsim].
+  Qed.
+End F1a.
+
+(** * Examples: the hypotheses are satisfiable, and both sides compute the same observations *)
+
+Definition ex_orc : oracle := mkOracle (fun _ => []) (fun _ => None) (fun x _ => x).
+Definition ex_a : text := [97%N].
+
+(* stel a = 10 - 3; a = a * 2; a + 1 *)
+Definition ex_prog : block :=
+  [ SLet ex_a (EInfix (EInt 10) OpSubtract (EInt 3));
+    SExpr (EAssign (EIdent ex_a) (EInfix (EIdent ex_a) OpMultiply (EInt 2)));
+    SExpr (EInfix (EIdent ex_a) OpAdd (EInt 1)) ].
+
+Example ex_prog_in_F1 : in_F1 ex_prog = true /\ ends_expr ex_prog = true.
+Proof. split; vm_compute; reflexivity. Qed.
+
+Example ex_prog_compiles : exists bc, compile ex_prog = Ok bc.
+Proof. vm_compute. eexists. reflexivity. Qed.
+
+Example ex_prog_runs :
+  match compile ex_prog with
+  | Ok bc => o_result (run_program ex_orc bc 100) = Ok (VInt 15) /\ o_out (run_program ex_orc bc 100) = []
+             /\ obs_eq (run_program ex_orc bc 100) (sem_program ex_orc 100 ex_prog)
+  | _ => False
+  end.
+Proof. vm_compute. repeat split; reflexivity. Qed.
+
+Example ex_prog_sem : exists h, sem_program ex_orc 100 ex_prog = SemValue (VInt 15) h [].
+Proof. vm_compute. eexists. reflexivity. Qed.
+
+(* the theorem applied to the example *)
+Example ex_prog_by_theorem : forall bc, compile ex_prog = Ok bc ->
+  exists budget, obs_eq (run_program ex_orc bc budget) (sem_program ex_orc 100 ex_prog).
+Proof.
+  intros bc H.
+  apply (compile_correct_F1_fuel ex_orc ex_prog (proj1 ex_prog_in_F1) (proj2 ex_prog_in_F1) bc H 100).
+  - vm_compute. lia.
+  - vm_compute. discriminate.
+Qed.
+
+(* a run-time error: ja + 1; both sides TypeError *)
+Definition ex_err : block := [SExpr (EInfix (EBool true) OpAdd (EInt 1))].
+Example ex_err_runs :
+  match compile ex_err with
+  | Ok bc => o_result (run_program ex_orc bc 100) = Err ETypeError
+             /\ obs_eq (run_program ex_orc bc 100) (sem_program ex_orc 100 ex_err)
+  | _ => False
+  end.
+Proof. vm_compute. repeat split; reflexivity. Qed.
+
+(* an undeclared name: stel a = 1; b; rejected by both front ends before anything runs *)
+Definition ex_undeclared : block := [SLet ex_a (EInt 1); SExpr (EIdent [98%N])].
+Example ex_undeclared_rejected :
+  in_F1 ex_undeclared = true /\ compile ex_undeclared = Err EReferenceError
+  /\ sem_program ex_orc 100 ex_undeclared = SemRejected EReferenceError.
+Proof. vm_compute. repeat split; reflexivity. Qed.
+
+(* the fuel quirk of Sem.static_check that forces the hypothesis r <> SemRejected ESyntaxError *)
+Example ex_static_fuel_quirk :
+  sem_program ex_orc 1 ex_prog = SemRejected ESyntaxError /\ exists bc, compile ex_prog = Ok bc.
+Proof. vm_compute. split; [reflexivity|eexists; reflexivity]. Qed.
+
+(* statement (1) is not vacuous: (10 - 3) * 2 < 15 && !nee compiles from the empty state *)
+Definition ex_expr : expr :=
+  EInfix (EInfix (EInfix (EInfix (EInt 10) OpSubtract (EInt 3)) OpMultiply (EInt 2)) OpLt (EInt 15))
+         OpAnd (EPrefix OpNot (EBool false)).
+Example ex_expr_ok :
+  in_F1a ex_expr = true /\ (exists st', compile_expression ex_expr compiler_new = Ok st')
+  /\ pure_eval ex_orc ex_expr = Ok (VBool true).
+Proof. vm_compute. split; [reflexivity|]. split; [eexists; reflexivity|reflexivity]. Qed.
+
+Print Assumptions compile_expr_correct_F1a.
+Print Assumptions compile_correct_F1.
+Print Assumptions compile_correct_F1_fuel.
+Print Assumptions compile_reject_F1.
+Print Assumptions static_reject_F1.
+Print Assumptions static_check_agrees.
